@@ -365,7 +365,45 @@ func c10Violation(lb *lexer.Builder, src []byte, kind string) core.Violation {
 	return core.Violation{Kind: k, Case: fmt.Sprintf("%q", sh), Detail: d, Payload: pl, Size: len(sh)}
 }
 
+// c10PluginCheck: with the consuming '^' interceptor installed, every token the LIBRARY builds starts where
+// the independent scan says, and its after-newline flag is set iff a line feed lies between it and the
+// previous token (whoever built that one).
+func c10PluginCheck(lb *lexer.Builder, src string) (kind, detail string) {
+	defer func() {
+		if r := recover(); r != nil {
+			kind, detail = "panic", fmt.Sprint(r)
+		}
+	}()
+	l := lb.Build(src)
+	prevEnd := 0
+	for i := 0; i < 4*len(src)+8; i++ {
+		t := l.NextToken()
+		if t.Type == token.EOF {
+			return "", ""
+		}
+		off := ref.OffsetOf(src, t.Start.Line, t.Start.Column)
+		if off < prevEnd || off >= len(src) {
+			return "plugin-start", fmt.Sprintf("token %d %v: start offset %d (previous token ended at %d)", i, t, off, prevEnd)
+		}
+		gap := src[prevEnd:off]
+		if strings.Trim(gap, " \n") != "" {
+			return "plugin-gap", fmt.Sprintf("token %d %v: bytes %q between the tokens were skipped", i, t, gap)
+		}
+		if t.Literal != "^" {
+			if src[off:off+len(t.Literal)] != t.Literal {
+				return "plugin-literal", fmt.Sprintf("token %d %v does not match the source at offset %d", i, t, off)
+			}
+			if want := strings.Contains(gap, "\n"); t.AfterNewline != want {
+				return "plugin-after-newline", fmt.Sprintf("token %d %v: AfterNewline=%v but the gap before it is %q", i, t, t.AfterNewline, gap)
+			}
+		}
+		prevEnd = off + len(t.Literal)
+	}
+	return "plugin-no-eof", "end of input never reported"
+}
+
 func c10Run(c *core.Ctx) {
+	processWarmup()
 	lb := lexer.NewBuilder()
 	n := 5
 	if c.Thorough() {
@@ -525,6 +563,43 @@ func c10Run(c *core.Ctx) {
 					c.Violate(core.Violation{Kind: "frag-" + k, Config: "code-point", Case: fmt.Sprintf("%q", src), Detail: d, Payload: pl, Size: len(src)})
 				}
 			}
+		}
+	}
+
+	// (1e) the repository's example plugin: a token interceptor that consumes '^' itself and returns a token
+	// built as a struct literal. Tokens built by the library around it keep exact positions and after-newline
+	// flags: all byte strings <= 5 over {a ^ LF SP + (}
+	{
+		lbx := lexer.NewBuilder()
+		pow := lbx.RegisterTokenType("pow")
+		lbx.UseTokenInterceptor(func(l *lexer.Lexer, next func() token.Token) token.Token {
+			if l.CurrentChar == '^' {
+				pos := token.Position{Line: l.Line, Column: l.Column}
+				l.ReadChar()
+				return token.Token{Type: pow, Literal: "^", Start: pos, End: pos}
+			}
+			return next()
+		})
+		alpha := []byte{'a', '^', '\n', ' ', '+', '('}
+		for L := 1; L <= 5; L++ {
+			gen.EachSeq(len(alpha), L, func(idx []int) bool {
+				if !c.Next() || c.Tick() {
+					return true
+				}
+				b := make([]byte, L)
+				for i, x := range idx {
+					b[i] = alpha[x]
+				}
+				src := string(b)
+				c.Cur(src)
+				c.Inc("inputs")
+				c.Inc("plugin_token_inputs")
+				if k, d := c10PluginCheck(lbx, src); k != "" && c.ShrinkOK("plug"+k) {
+					pl, _ := json.Marshal(c10Payload{Src: []byte(src)})
+					c.Violate(core.Violation{Kind: k, Config: "plugin-token", Case: fmt.Sprintf("%q", src), Detail: d, Payload: pl, Size: L})
+				}
+				return true
+			})
 		}
 	}
 
